@@ -28,7 +28,7 @@ def allowed_final(i, sc, facts, states):
         return allowed
     if f["cancel_nonfinal"]:
         # cancelled while waiting or running; if its process had already exited 0 the success may win the race
-        return {"CANCELLED"} | ({"COMPLETED"} if f["cancel_after_exit0"] else set())
+        return {"CANCELLED"} | ({"COMPLETED"} if f["cancel_after_exit0"] else set()) | (set(FAILCLASS) if f.get("shutdown_after_failed_exit") else set())
     if f["spawns"] == 0:
         if i in sc.get("start_fail", ()):
             return set(FAILCLASS)
